@@ -48,23 +48,46 @@ Theorem genio_plan_correct : forall start count stride,
 Proof. exact genio_positions. Qed.
 Print Assumptions genio_plan_correct.
 
-(** Out-of-range requests.  PARTIAL: proved are the validation kernels -- SDreaddata's stride check rejects
-    exactly the requests whose last index reaches the extent, before any transfer; NCcoordck accepts a
-    position iff every coordinate lies inside the shape (every transfer of vario_loop is preceded by
-    coordck at its position).  Missing for the full statement ("every request with some
-    start + (count-1)*stride >= extent returns FAIL and all transfers issued before lie inside the requested
-    region"): the induction over vario_loop / genio_loop combining these kernels. *)
+(** Out-of-range requests on a fixed-size dataset (model level, for ALL ranks, shapes and requests):
+    (1) SDreaddata without stride, and SDwritedata with stride NULL or all strides 1: positive counts and
+        some start_i < 0 or start_i + count_i > extent_i  ==>  FAIL.  The proof follows the code: NCcoordck rejects
+        the start, or NCvcmaxcontig rejects an edge, or (NCvcmaxcontig having stopped validating at the first
+        short edge) the ripple counter reaches a position that NCcoordck rejects -- lemma vario_oob_fails, an
+        induction over vario_loop using vcmaxcontig_sound.
+    (2) SDreaddata with a stride array: start_i + (count_i-1)*stride_i >= extent_i in ANY dimension ==> FAIL before
+        any transfer, dataset untouched.
+    (3) the regenerated tests mean: stride check <=> reach >= extent; NCcoordck accepts <=> inside the shape.
+    PARTIAL -- still missing: strided SDwritedata and strided reads with a negative start (induction over
+    genio_loop: every visited position is an NCvario call to which vario_oob_fails applies), record variables,
+    and, as a theorem rather than by construction, that the transfers issued before the failure are blocks
+    p ++ [sk..sk+ek) x whole trailing dimensions at in-shape odometer positions p, i.e. cells of the requested
+    region (this is how vario_plan_correct is proved; vario_loop transfers only at positions NCcoordck accepted). *)
 Theorem out_of_range_rejected_partial :
+  (forall m start stride count,
+     is_recvar m = false -> (0 < length (m_shape m))%nat ->
+     length start = length (m_shape m) -> length count = length (m_shape m) ->
+     Forall (fun c => 1 <= c) count ->
+     all4 dim_in start (ones start) count (m_shape m) = false ->
+     exists m' cells tr, sd_read m false start stride count = (m', MRead (-1) cells tr)) /\
+  (forall m us start stride count vals,
+     is_recvar m = false -> (0 < length (m_shape m))%nat ->
+     length start = length (m_shape m) -> length count = length (m_shape m) ->
+     Forall (fun c => 1 <= c) count ->
+     us = false \/ forallb (fun t => t =? 1) stride = true ->
+     all4 dim_in start (ones start) count (m_shape m) = false ->
+     exists m' tr, sd_write m us start stride count vals = (m', MRet (-1) tr)) /\
+  (forall m start stride count,
+     is_recvar m = false -> (0 < length (m_shape m))%nat ->
+     length start = length (m_shape m) -> length stride = length (m_shape m) -> length count = length (m_shape m) ->
+     all4 reach_in start stride count (m_shape m) = false ->
+     sd_read m true start stride count = (m, MRead (-1) [] [])) /\
   (forall t c d s, truth (sdread_stride_bad0 t c d s) = (d <=? reach s t c)) /\
   (forall t c d s, truth (sdread_stride_badi t c d s) = (d <=? reach s t c)) /\
   (forall c shape, length c = length shape ->
-     any2 coordck_bad c shape = negb (all3 (fun x d _ => (0 <=? x) && (x <? d)) c shape c)) /\
-  (forall m start stride count, is_recvar m = false -> (0 < length (m_shape m))%nat ->
-     (hd 0 (m_shape m) <=? reach (hd 0 start) (hd 1 stride) (hd 1 count)) = true ->
-     sd_read m true start stride count = (m, MRead (-1) [] [])).
+     any2 coordck_bad c shape = negb (all3 (fun x d _ => (0 <=? x) && (x <? d)) c shape c)).
 Proof.
-  split. exact stride_check_spec0. split. exact stride_check_speci. split. exact any2_coordck.
-  exact sd_read_stride_rejected.
+  split. exact sd_read_unit_rejected. split. exact sd_write_unit_rejected. split. exact sd_read_strided_rejected.
+  split. exact stride_check_spec0. split. exact stride_check_speci. exact any2_coordck.
 Qed.
 Print Assumptions out_of_range_rejected_partial.
 
@@ -156,6 +179,17 @@ Example ex_growth :
     Some (mkM [0; 2] 1 4 None 129 false [Val 1; Val 2; Val 129; Val 129; Val 129; Val 129; Val 129; Val 129],
           [TWrite 2 2; TWrite 4 2; TWrite 6 2]).
 Proof. vm_compute. repeat split; reflexivity. Qed.
+
+(** hypotheses of out_of_range_rejected_partial (1): 3x4 dataset, request rows 1..3 (one too many) x columns 1..2.
+    NCvcmaxcontig validates only the last dimension (short edge -> break); rows 1 and 2 are transferred (after the
+    first-write fill), row 3 is rejected by NCcoordck: FAIL with a partial write inside the requested region *)
+Example ex_oob :
+  all4 dim_in [1; 1] (ones [1; 1]) [3; 2] [3; 4] = false /\
+  Forall (fun c => 1 <= c) [3; 2] /\
+  fst (vario true [1; 1] [3; 2] (mkAcc (m_init [3; 4] false DFNT_UINT8) [] [] (map Val [1;2;3;4;5;6]))) = false /\
+  acc_tr (snd (vario true [1; 1] [3; 2] (mkAcc (m_init [3; 4] false DFNT_UINT8) [] [] (map Val [1;2;3;4;5;6]))))
+    = [TWrite 0 5; TWrite 5 2; TWrite 7 5; TWrite 9 2].
+Proof. vm_compute. repeat split; auto. repeat constructor; discriminate. Qed.
 
 (** the whole model and the specification on one history: strided write, out-of-range read, full read *)
 Example ex_history :
